@@ -57,6 +57,23 @@ _FOREIGN = [
     ("uuid", "UUID"),
 ]
 
+# a library that lives next to the analysed package (resolved by the type checker, but not part of the package):
+# classes in its __init__ (lower-case, CamelCase, underscore-prefixed) and in a sub-module whose name sorts between them
+_SIBLING_FOREIGN = [
+    ("numlib", "float64"),
+    ("numlib", "ndarray"),
+    ("numlib", "Matrix"),
+    ("numlib.linalg", "LinAlgResult"),
+    ("numlib.linalg", "solver_state"),
+    ("otherlib.linalg", "Other"),
+]
+_SIBLING_FILES = {
+    "numlib/__init__.py": "class float64:\n    pass\n\n\nclass ndarray:\n    pass\n\n\nclass Matrix:\n    pass\n",
+    "numlib/linalg.py": "class LinAlgResult:\n    pass\n\n\nclass solver_state:\n    pass\n",
+    "otherlib/__init__.py": "",
+    "otherlib/linalg.py": "class Other:\n    pass\n",
+}
+
 _KEYWORDS = ["val", "out", "attr", "sub", "from_", "schema", "yield_", "union", "static", "segment"]
 
 _BUILTIN_TYPES = ["int", "str", "bool", "float"]
@@ -119,6 +136,9 @@ class PackageGenerator:
         self.extra_files: dict[str, str] = {}
         self.class_registry: list[tuple[str, str]] = []  # (module qname, class name) of importable public classes
         self.probes: dict = {"inherit_groups": [], "tie_reexports": [], "homonyms": [], "foreign": [], "aliases": {}}
+        if "UNICODE_DOC" in self.features:
+            self.features.add("DOCS")
+        self.sibling_lib = "FOREIGN_TYPES" in self.features and self.r.random() < 0.6
         self.top = self.r.choice(["mypkg", "alphalib", "corelib"])
         if "SNAKE_NAMES" in self.features:
             self.top = self.r.choice(["my_pkg", "alpha_lib", "core_lib_x"])
@@ -235,7 +255,8 @@ class PackageGenerator:
             mod.add_import(f"from {mq} import {cn}")
             return cn
         if c == "foreign":
-            m, cn = r.choice(_FOREIGN)
+            pool = _FOREIGN + (_SIBLING_FOREIGN * 2 if self.sibling_lib else [])
+            m, cn = r.choice(pool)
             mod.add_import(f"from {m} import {cn}")
             self.probes["foreign"].append(f"{m}.{cn}")
             return cn
@@ -494,7 +515,8 @@ class PackageGenerator:
             self.inits.setdefault(".".join(parts[:i]), [])
         if self.f("DOCS") and self.r.random() < 0.6:
             tok = self.tokens.new("M", m.qname)
-            m.doc = f'"""Module summary {tok}."""\n'
+            uni = " – ünïcödé ✓" if self.f("UNICODE_DOC") else ""
+            m.doc = f'"""Module summary {tok}{uni}."""\n'
         return m
 
     def fill_module(self, m: _Module, n_classes: int, n_funcs: int) -> None:
@@ -741,6 +763,8 @@ class PackageGenerator:
         for m in self.modules:
             files[m.qname.replace(".", "/") + ".py"] = m.render()
         files.update(self.extra_files)
+        if self.sibling_lib:
+            files.update(_SIBLING_FILES)
         for p, t in files.items():
             compile(t, p, "exec")  # the generator must only ever emit valid Python
         return {
